@@ -714,9 +714,12 @@ pub fn scn_framing(out: &mut TraceOut, r: &mut R, idx: u64, heavy: bool) {
         entries.push((vec![], value_for(1, 3)));
     }
     entries.push((vec![5u8; kl], value_for(2, vl)));
-    let mut after = vec![5u8; kl];
-    after.push(9);
-    entries.push((after, value_for(3, kl % 7)));
+    // the shortest possible entry (both lengths 0) is also tried alone in its file
+    if !(kl == 0 && vl == 0 && idx % 2 == 0) {
+        let mut after = vec![5u8; kl];
+        after.push(9);
+        entries.push((after, value_for(3, kl % 7)));
+    }
     let (dict, data) = build_and_log(out, &cfg, &entries, &[], 2);
     let Some(data) = data else { return };
     let mut s = new_session(out, entries, dict, data);
